@@ -189,6 +189,21 @@ func c15RandProject(r *rand.Rand, malformed bool) (c15State, []string) {
 			}
 		}
 	}
+	if n >= 3 && r.Intn(5) == 0 {
+		// several services depend on the same one, some edges required and some optional: when that service is
+		// disabled the walk must judge each edge by its own flag (seed C15-4 merged the per-service maps)
+		t := names[order[0]]
+		for a := 1; a < n; a++ {
+			if r.Intn(3) != 0 {
+				svcs[names[order[a]]].Deps[t] = c15Dep{Required: r.Intn(2) == 0, Cond: c15Conds[r.Intn(3)]}
+			}
+		}
+		if r.Intn(2) == 0 {
+			s := svcs[t]
+			s.Profiles = []string{"r"} // a profile no load of the generator activates: the target starts disabled
+			svcs[t] = s
+		}
+	}
 	if malformed {
 		for k := 0; k < 1+r.Intn(3); k++ {
 			x := names[r.Intn(n)]
@@ -418,6 +433,9 @@ func runC15(ctx *core.Ctx) {
 		ctx.Count("malformed")
 		add(c15Args{Init: st, Ops: ops})
 	}
+	// 4. the environment tail of WithServicesEnabled on services with env files (real files; tie to C16's function)
+	c15GenEnvTail(ctx, ctx.Rng, ctx.Pick(3000, 40000))
+
 	ctx.Wait()
 	ctx.Note("c15hist: %d steps compared exactly with the model and decided against the spec; %d select steps look like the pre-fix order-dependent loop (must be 0); %d steps returned 'no such service'; spec skipped on %d steps whose receiver is not a partition or has a Name that differs from its key (malformed stream)",
 		c15Steps.Load(), c15ViaOrder.Load(), c15ErrSteps.Load(), c15SpecSkipped.Load())
